@@ -550,6 +550,10 @@ func (r *RIB) addEntryInternal(ni string, op *spb.AFTOperation, oks, fails *[]*O
 
 	switch {
 	case opErr != nil:
+		// A failure is a terminal result for the operation: it must not be retried
+		// (and answered again) by later installs, nor further up this stack.
+		installStack[op.GetId()] = true
+		r.rmPending(op.GetId())
 		*fails = append(*fails, &OpResult{
 			ID:    op.GetId(),
 			Op:    op,
